@@ -82,6 +82,10 @@ def class_stream(impl):
         yield "no-token", "RETURN = echo(" + c + ")", "ParseError"
         yield "no-token", "RETURN = [" + c + "]", "ParseError"
         yield "no-token", 'RETURN = {"k": ' + c + "}", "ParseError"
+        yield "no-token", "RETURN = {" + c + ' "k": 1}', "ParseError"
+        yield "no-token", "RETURN = [" + c + " 1]", "ParseError"
+        yield "no-token", "RETURN = echo(" + c + " 1)", "ParseError"
+        yield "no-token", 'RETURN = {"a": 1,' + c + ' "k": 1}', "ParseError"
     for t in ["RETURN = zzz", "RETURN = [zzz]", "RETURN = echo(zzz)", 'RETURN = {"a": zzz}', "x = 1; RETURN = X",
               "RETURN = RETURN"]:
         yield "unknown-variable", t, "InterpretError"
